@@ -62,7 +62,7 @@ CLAIMED["C17"] = {
 
 CLAIMED["C16"] = {
     "technique": "Lean 4 proof that every extracted group is the source group indexed by one mask computed from its positions (fold soundness, reusing the C06 alignment theorem) + membership lemmas; correspondence on hand-built datasets with rows exactly on the boundary",
-    "text": "C16_extract_sound: each group of the result is the source group of that name indexed by a single boolean mask derived from the group's own or the mesh positions (shapes equal), with at least one row kept — so all members stay row-aligned by C06_getIndex_aligned; C16_box_row_phys and C16_sphere_row_phys state the tests in physical terms: with positions, origin and size / radius each in its own length unit, row i is kept exactly when |physical offset| <= physical size / 2 (box, per component) resp. the physical distance is below the positive physical radius (sphere, >= 2 components). Tie: datasets with mesh/part/sink groups, 2-D/3-D positions, mixed length units, rows exactly on sphere and box boundaries, compared with the real extract_sphere / extract_box (result, untouched input, no shared memory).",
+    "text": "C16_extract_sound: each group of the result is the source group of that name indexed by a single boolean mask derived from the group's own or the mesh positions (shapes equal), with at least one row kept — so all members stay row-aligned by C06_getIndex_aligned; C16_box_row_phys and C16_sphere_row_phys state the tests in physical terms: with positions, origin and size / radius each in its own length unit, row i is kept exactly when |physical offset| <= physical size / 2 (box, per component) resp. the physical distance is below the positive physical radius (sphere, >= 2 components). Tie: datasets with mesh/part/sink groups, 2-D/3-D positions, mixed length units, rows exactly on sphere and box boundaries, compared with the real extract_sphere / extract_box (result, untouched input, no shared memory). C16_box_mask_rows: the box mask is the row-wise conjunction of the one-component masks over the existing components.",
     "note": "trusted: Lean kernel + standard axioms; r < R modelled as r^2 < R^2; comparison and conversion semantics from C07/C08; the composition of the per-row theorems with the extraction fold is by correspondence; 1-component sphere is a known finding",
     "design_ref": "5 C16",
 }
